@@ -85,6 +85,7 @@ package intermediate
 //@ func (a *AggregationProcess) ForAllExpiredFlowRecordsDo(callback) (err)
 //@   requires inv:  aggInv(a) && aggRetry(a) && !a.mutex.held && !a.mutex.rheld && callback != nil
 //@   ensures  inv:  aggInv(a) && aggRetry(a)
+//@   ensures  once: a.mutex.acq == old(a.mutex.acq) + 1
 //@   ensures  lock: !a.mutex.held
 //@   ensures  alldue: err == nil ==> (forall i in [0, len(a.expirePriorityQueue)): minExp(a.expirePriorityQueue[i]) > $lastNow) || len(a.expirePriorityQueue) == 0
 //@   ensures  nonew: forall k: has(a.flowKeyRecordMap, k) ==> old(has(a.flowKeyRecordMap, k)) && a.flowKeyRecordMap[k] == old(a.flowKeyRecordMap[k])
@@ -94,6 +95,7 @@ package intermediate
 //@   callpre functype:intermediate.FlowKeyRecordMapCallBack only_due: record.ReadyToSend && (pqItem.activeExpireTime <= currTime || pqItem.inactiveExpireTime <= currTime)
 //@   callpre functype:intermediate.FlowKeyRecordMapCallBack earliest: forall i in [0, len(a.expirePriorityQueue)): minExp(pqItem) <= minExp(a.expirePriorityQueue[i])
 //@   callpre functype:intermediate.FlowKeyRecordMapCallBack held: has(a.flowKeyRecordMap, mapkey(key)) && a.flowKeyRecordMap[mapkey(key)] == record
+//@   callpre functype:intermediate.FlowKeyRecordMapCallBack locked: a.mutex.held
 //@   modifies *
 //@   replay expiry
 //@   loop 1 invariant inv:  aggInv(a) && aggRetry(a) && a.mutex.held && currTime == $lastNow
@@ -109,6 +111,7 @@ package intermediate
 //@   ensures  adv:  len(a.expirePriorityQueue) > 0 && MinExpiryTime + minExp(a.expirePriorityQueue[0]) - $lastNow >= 0 ==> r == MinExpiryTime + minExp(a.expirePriorityQueue[0]) - $lastNow
 //@   ensures  past: len(a.expirePriorityQueue) > 0 && MinExpiryTime + minExp(a.expirePriorityQueue[0]) - $lastNow < 0 ==> r == MinExpiryTime
 //@   ensures  idle: len(a.expirePriorityQueue) == 0 ==> r == (a.activeExpiryTimeout < a.inactiveExpiryTimeout ? a.activeExpiryTimeout : a.inactiveExpiryTimeout)
+//@   ensures  once: a.mutex.acq == old(a.mutex.acq) + 1
 //@   ensures  lock: !a.mutex.held
 //@   modifies a.mutex.held, $lastNow
 //@   replay expiry
@@ -284,6 +287,7 @@ package intermediate
 //@   ensures  inv:  aggInv(a)
 //@   ensures  retry: aggRetry(a)
 //@   ensures  held: err == nil ==> has(a.flowKeyRecordMap, key)
+//@   ensures  once: a.mutex.acq == old(a.mutex.acq) + 1
 //@   ensures  lock: !a.mutex.held
 //@   ensures  others: forall k: k != key ==> has(a.flowKeyRecordMap, k) == old(has(a.flowKeyRecordMap, k)) && a.flowKeyRecordMap[k] == old(a.flowKeyRecordMap[k])
 //@   ensures  otherdl: forall k: k != key && has(a.flowKeyRecordMap, k) ==> itemOf(a, k) == old(itemOf(a, k)) && itemOf(a, k).activeExpireTime == old(itemOf(a, k).activeExpireTime) && itemOf(a, k).inactiveExpireTime == old(itemOf(a, k).inactiveExpireTime)
@@ -324,6 +328,7 @@ package intermediate
 //@ func (a *AggregationProcess) GetNumFlows() (r)
 //@   requires a:    a != nil && !a.mutex.held && !a.mutex.rheld
 //@   ensures  n:    r == len(a.flowKeyRecordMap)
+//@   ensures  once: a.mutex.acq == old(a.mutex.acq) + 1
 //@   ensures  lock: !a.mutex.held && !a.mutex.rheld
 //@   modifies a.mutex.held
 
@@ -331,18 +336,22 @@ package intermediate
 //@   requires a:    a != nil && !a.mutex.held && !a.mutex.rheld
 //@   ensures  ok:   (err == nil) <==> old(has(a.flowKeyRecordMap, mapkey(flowKey)))
 //@   ensures  del:  !has(a.flowKeyRecordMap, mapkey(flowKey))
+//@   ensures  once: a.mutex.acq == old(a.mutex.acq) + 1
 //@   ensures  lock: !a.mutex.held && !a.mutex.rheld
 //@   modifies a.mutex.held, a.flowKeyRecordMap[*]
 
 //@ func (a *AggregationProcess) ForAllRecordsDo(callback) (err)
 //@   requires a:    a != nil && !a.mutex.held && !a.mutex.rheld && callback != nil
+//@   ensures  once: a.mutex.acq == old(a.mutex.acq) + 1
 //@   ensures  lock: !a.mutex.held && !a.mutex.rheld
+//@   callpre functype:intermediate.FlowKeyRecordMapCallBack locked: a.mutex.held
 //@   modifies *
 //@   loop 1 invariant held: a.mutex.held && !a.mutex.rheld
 
 //@ func (a *AggregationProcess) GetRecords(flowKey) (r)
 //@   requires a:    a != nil && !a.mutex.held && !a.mutex.rheld
 //@   requires recs: forall k: has(a.flowKeyRecordMap, k) ==> a.flowKeyRecordMap[k] != nil && recNN(a.flowKeyRecordMap[k].Record)
+//@   ensures  once: a.mutex.acq == old(a.mutex.acq) + 1
 //@   ensures  lock: !a.mutex.held && !a.mutex.rheld
 //@   modifies *
 //@   loop 1 invariant held: a.mutex.held && !a.mutex.rheld
